@@ -108,6 +108,11 @@ class GraphOps:
             g = s.getf(g, 'g_base')
         return g
 
+    def edge_trigger(self, g, u, v):
+        """the membership term of (u, v) in the edge set of g's root graph: part of every edge_in(g, u, v), used as the
+        trigger of axioms about edges (so they are instantiated for edges that are mentioned, not for all pairs)"""
+        return self.st.getf(self.root(g), 'g_edges').contains(PyV.tup2(u, v))
+
     def _call_filter(self, flt, args, assuming):
         it = self.it
         return as_z3(as_bool_term(it.eval_merged(lambda: it.call_value(flt, CallArgs(args)), 'bool', assuming=assuming)))
@@ -194,7 +199,7 @@ class GraphOps:
                               '(G acyclic)')
         st.assume(FA([i, j], z3.Implies(z3.And(i >= 0, j >= 0, i < seq.len, j < seq.len,
                                                       self.edge_in(g, seq.at(i), seq.at(j))), i < j),
-                            patterns=[z3.MultiPattern(seq.at(i), seq.at(j))]))
+                            patterns=[self.edge_trigger(g, seq.at(i), seq.at(j))]))
         # generation order (topological_sort is implemented by topological_generations): non-decreasing depth
         depth = self.depth_fn(g)
         st.assume(FA([i, j], z3.Implies(z3.And(i >= 0, i < j, j < seq.len), depth(seq.at(i)) <= depth(seq.at(j))),
@@ -217,7 +222,7 @@ class GraphOps:
         u, v = z3.Consts('du dv', PyV)
         st.assume(FA([u], depth(u) >= 0, patterns=[depth(u)]))
         st.assume(FA([u, v], z3.Implies(self.edge_in(g, u, v), depth(v) >= depth(u) + 1),
-                            patterns=[z3.MultiPattern(depth(u), depth(v))]))
+                            patterns=[self.edge_trigger(g, u, v)]))
         st.assume(FA([v], z3.Implies(z3.And(self.node_in(g, v), depth(v) > 0),
                                             z3.And(self.edge_in(g, wit(v), v), depth(wit(v)) == depth(v) - 1)),
                             patterns=[wit(v)]))   # inert unless a lemma mentions the witness (no matching loop)
@@ -479,6 +484,11 @@ class GraphPlugin:
             return (LibFn('G.add_edge', lambda it_, ca: self.add_edge(it_, g, ca)),)
         if name == 'copy':
             return (LibFn('G.copy', lambda it_, ca: self.copy(it_, g)),)
+        if name == '__contains__':
+            def contains(it_, ca):
+                used(it_, NX_AX + '`n in G` is membership among the visible nodes')
+                return wrap_bool(GraphOps(it_).node_in(g, lift(ca.args[0], it_.st)))
+            return (LibFn('G.__contains__', contains),)
         if name == '__len__':
             return (LibFn('G.__len__', lambda it_, ca: SymI(GraphOps(it_).card(g))),)
         if name == 'name':
@@ -638,7 +648,7 @@ class AsyncioPlugin:
 
     def symv_attr(self, it, obj, name):
         """methods of Task values"""
-        if name not in ('done', 'cancelled', 'exception', 'cancel', 'get_name'):
+        if name not in ('done', 'cancelled', 'exception', 'cancel', 'get_name', 'add_done_callback'):
             return None
         st = it.st
         t = obj.t
@@ -679,8 +689,15 @@ class AsyncioPlugin:
 
         def get_name(it_, ca):
             return SymS(z3.Function('task_name', IntS, StrS)(tid))
+
+        def add_done_callback(it_, ca):
+            fn = ca.args[0]
+            used(it_, ASY + 'Task.add_done_callback(f): f(task) is run by the loop some time after the task finishes; '
+                            'recorded as a ghost effect, never executed by the verifier')
+            it_.st.emit('done_callback', tid=tid, fn=fn, bound=getattr(fn, 'bound', None), fn_name=getattr(fn, 'name', repr(fn)))
+            return None
         return (LibFn(f'Task.{name}', dict(done=done, cancelled=cancelled, exception=exception, cancel=cancel,
-                                          get_name=get_name)[name]),)
+                                          get_name=get_name, add_done_callback=add_done_callback)[name]),)
 
     def obj_attr(self, it, obj, name):
         if obj.cls == 'defaultdict' and name == '__getitem__':
